@@ -1,18 +1,23 @@
 /-
   C12 at TEXT level: `build (parse (to_string s)) = s`.
 
-  sch2's `print_build_roundtrip` is about the DOCUMENT the printer denotes (`schemaToDoc s : Sdl.Doc`).  This file states
-  the connection of the printed TEXT (`SdlPrint.printSchema`, the model that is compared character by character with
-  `ASTSchemaPrinter` on every run) with the language front end of C01–C03 (`Lex.lexAll`, `Parse.parseDocument`), and
-  proves the composition:  IF the printed text parses to the tree that the denoted document stands for
-  (`PrintSchemaTextParses s`), THEN the text-level round trip holds (`text_roundtrip_of_parses`).
+  sch2's `print_build_roundtrip` is about the DOCUMENT the printer denotes (`schemaToDoc s : Sdl.Doc`).  Here the printed
+  TEXT is connected with the language front end of C01–C03 (`Lex.lexAll`, `Parse.parseDocument`):
 
-  `PrintSchemaTextParsesStatement` itself is NOT proved here; it is checked on concrete schemas by evaluation
-  (`#eval same shop = true`, see the report) — the kernel cannot evaluate it (string primitives), and a proof needs two
-  changes in the C12 model that only its owner can make (see `SdlText` section "what a proof needs" below).
+  * `SdlPrintT.printSchemaT` is a second, total, `Text`-based model of `ASTSchemaPrinter` (`include_custom_schema_directives
+    = False`), compared on every run with the real printer's text and with the first model (`corr/C12_text.py`);
+  * `docToAst` is the tree an SDL document of the C11/C12 model denotes (descriptions are block strings);
+  * `printTextWF` is the ONE decidable lexical well-formedness predicate;
+  * THE STATEMENT `PrintSchemaTextParsesStatement`: the printed text of a schema in printing order that satisfies
+    `printTextWF` is accepted by lexer and parser and parses to the denoted tree;  the composition with
+    `print_build_roundtrip` is `TextRoundtrip`.
+  Proved so far: LAYER (i) — schemas without printed descriptions and without default values
+  (`print_schema_text_parses_partial`, `text_roundtrip_partial`).  The statement is evaluated by the driver on every
+  generated schema that satisfies `printTextWF` (op `printT`).
 -/
-import PyGqlModel.Lemmas.SdlText
+import PyGqlModel.Lemmas.SdlTextLayer1
 import PyGqlModel.Props.C12_print_build
+import PyGqlModel.Props.C12_examples
 namespace PyGql.Props.C12
 open PyGql PyGql.Ast PyGql.Sdl PyGql.SdlPrint PyGql.SdlText
 
@@ -22,61 +27,69 @@ def printOrder (s : SchemaD) : SchemaD :=
 
 theorem printedDoc_eq (s : SchemaD) : printedDoc s = schemaToDoc (printOrder s) := rfl
 
-/-- the printed text (default options: four-space indent, descriptions on, no custom directives) is accepted by the lexer
-    and the parser (`allow_type_system`, `no_location`) and parses to the tree denoted by the document the printer
-    denotes, in printing order -/
-def PrintSchemaTextParses (s : SchemaD) : Prop :=
-  parseSdlText (printSchema {} s [] initialCollection).1 = docToAst (printedDoc s)
-
-/-- THE STATEMENT `print_schema_text_parses`: for every schema satisfying a lexical well-formedness predicate `WF`
-    (names are Name lexemes, printed default literals are number / name lexemes, descriptions survive the printer's
-    layout: no line longer than the wrap width, canonical block-string shape, no trailing backslash; unions, enums, object,
-    interface and input types are not empty) the printed text parses to the denoted document. -/
-def PrintSchemaTextParsesStatement (WF : SchemaD → Prop) : Prop := ∀ s, WF s → PrintSchemaTextParses s
+/-- THE FULL STATEMENT `print_schema_text_parses`: for every printer configuration and every schema in printing order that
+    satisfies the lexical well-formedness predicate `printTextWF`, the printed text is accepted by the lexer and the parser
+    (`allow_type_system`, `no_location`) and parses to the tree of the document the printer denotes. -/
+def PrintSchemaTextParsesStatement : Prop :=
+  ∀ (o : SdlPrintT.OptsT) (s : SchemaD), InPrintOrder s → printTextWF o s = true →
+    parseSdlTextT (SdlPrintT.printSchemaT o s) = docToAst (schemaToDoc s)
 
 /-- the text-level round trip: the text parses to a tree `d` which is the tree of a document `doc` (the wire image the
-    builder consumes) that builds to the schema (in printing order) -/
-def TextRoundtrip (s : SchemaD) : Prop :=
-  ∃ (d : Document) (doc : Doc), parseSdlText (printSchema {} s [] initialCollection).1 = some d ∧
-    docToAst doc = some d ∧ build doc = .ok (printOrder s)
+    builder consumes) that builds to the schema -/
+def TextRoundtrip (o : SdlPrintT.OptsT) (s : SchemaD) : Prop :=
+  ∃ (d : Document) (doc : Doc), parseSdlTextT (SdlPrintT.printSchemaT o s) = some d ∧ docToAst doc = some d ∧ build doc = .ok s
 
-/-- every document the printer denotes has a tree (it contains no executable definition) -/
-theorem docToAst_schemaToDoc_isSome (s : SchemaD) : (docToAst (schemaToDoc s)).isSome = true := by
-  have h : ∀ doc : Doc, (∀ x ∈ doc, (defOf x).isSome = true) → (doc.mapM defOf).isSome = true := by
-    intro doc
-    induction doc with
-    | nil => intro _; rfl
-    | cons x xs ih =>
-      intro hx
-      have h1 := hx x (by simp)
-      have h2 := ih (fun y hy => hx y (by simp [hy]))
-      cases hd : defOf x with
-      | none => rw [hd] at h1; cases h1
-      | some a =>
-        cases hm : xs.mapM defOf with
-        | none => rw [hm] at h2; cases h2
-        | some as => simp [List.mapM_cons, hd, hm]
-  have hall : ∀ x ∈ schemaToDoc s, (defOf x).isSome = true := by
-    intro x hx
-    simp only [schemaToDoc, List.mem_append, List.mem_map] at hx
-    rcases hx with (hx | ⟨d, _, rfl⟩) | ⟨t, _, rfl⟩
-    · split at hx
-      · simp only [List.mem_singleton] at hx; subst hx; rfl
-      · cases hx
-    · rfl
-    · rfl
-  simpa [docToAst] using h _ hall
+/-- `print_schema_text_parses_partial` — LAYER (i) of the statement: schemas in which no description is printed and no
+    argument / input field has a default value (all six kinds of types, fields with arguments, `implements`, unions, enums,
+    input objects, `@deprecated` with and without reason, directive definitions, the `schema` block), every indentation string
+    over {space, tab}.  MISSING for `PrintSchemaTextParsesStatement`: printed descriptions (the three layouts of
+    `print_description`, the one-argument-per-line layout of `print_arguments`) and default values (`litText`). -/
+theorem print_schema_text_parses_partial (o : SdlPrintT.OptsT) (s : SchemaD) (hs : InPrintOrder s)
+    (hwf : printTextWF o s = true) (hp : NoDescNoDefault s) :
+    parseSdlTextT (SdlPrintT.printSchemaT o s) = docToAst (schemaToDoc s) :=
+  parse_printSchemaT_layer1 o s hs hwf hp
 
-/-- `text_roundtrip_of_parses` — COMPOSITION with `print_build_roundtrip`: if the printed text parses to the denoted tree
-    and the schema (in printing order) satisfies `printBuildWF`, then the text-level round trip holds. -/
-theorem text_roundtrip_of_parses (s : SchemaD) (hp : PrintSchemaTextParses s) (hwf : printBuildWF (printOrder s) = true) :
-    TextRoundtrip s := by
-  have hsome := docToAst_schemaToDoc_isSome (printOrder s)
-  cases hd : docToAst (schemaToDoc (printOrder s)) with
-  | none => rw [hd] at hsome; cases hsome
-  | some d =>
-    refine ⟨d, schemaToDoc (printOrder s), ?_, hd, print_build_roundtrip _ hwf⟩
-    unfold PrintSchemaTextParses at hp
-    rw [hp, printedDoc_eq, hd]
+/-- `text_roundtrip_of_parses` — COMPOSITION with sch2's `print_build_roundtrip`: the statement for `s` gives the text-level
+    round trip for `s` -/
+theorem text_roundtrip_of_parses (o : SdlPrintT.OptsT) (s : SchemaD)
+    (hp : parseSdlTextT (SdlPrintT.printSchemaT o s) = docToAst (schemaToDoc s)) (hwf : printBuildWF s = true) :
+    TextRoundtrip o s := by
+  have hd := docToAst_schemaToDoc s
+  exact ⟨_, schemaToDoc s, by rw [hp, hd], hd, print_build_roundtrip s hwf⟩
+
+/-- `text_roundtrip_partial` — LAYER (i), composed: `build (parse (to_string s)) = s` at text level -/
+theorem text_roundtrip_partial (o : SdlPrintT.OptsT) (s : SchemaD) (hs : InPrintOrder s) (hwf : printTextWF o s = true)
+    (hp : NoDescNoDefault s) (hb : printBuildWF s = true) : TextRoundtrip o s :=
+  text_roundtrip_of_parses o s (print_schema_text_parses_partial o s hs hwf hp) hb
+
+/-! ### non-vacuity -/
+
+/-- the example schemas of `C12_examples` satisfy the lexical predicate (default printer options) -/
+example : printTextWF {} shop = true := by decide
+example : printTextWF {} shopLower = true := by decide
+
+/-- a schema of layer (i): object with arguments and `implements`, interface, union, enum with a deprecated value, input
+    object, directive definition, non-conventional roots (the `schema` block is printed), already in printing order -/
+def plainShop : SchemaD :=
+  { types := [
+      { kind := .enum, name := "Color", values := [{ name := "RED", value := .str "RED" }, { name := "GREEN", value := .str "GREEN", deprecated := some "old" }] },
+      { kind := .input, name := "Filter", inputFields := [{ name := "color", type := .named "Color" }, { name := "tags", type := .list (.nonNull (.named "String")) }] },
+      { kind := .object, name := "Item", interfaces := ["Node"],
+        fields := [{ name := "id", type := .nonNull (.named "ID") },
+                   { name := "name", type := .named "String", deprecated := some "No longer supported", args := [{ name := "upper", type := .named "Boolean" }] }] },
+      { kind := .interface, name := "Node", fields := [{ name := "id", type := .nonNull (.named "ID") }] },
+      { kind := .object, name := "Root", fields := [{ name := "items", type := .nonNull (.list (.nonNull (.named "Item"))), args := [{ name := "filter", type := .named "Filter" }] }] },
+      { kind := .union, name := "Thing", members := ["Item"] }],
+    directives := [{ name := "tag", locations := ["FIELD", "QUERY"], args := [{ name := "name", type := .named "String" }] }],
+    query := some "Root" }
+
+example : TextRoundtrip {} plainShop :=
+  text_roundtrip_partial {} plainShop ⟨by rfl, by rfl⟩ (by decide) (by
+    refine ⟨fun t ht => ?_, fun d hd => ?_⟩
+    · simp only [plainShop, List.mem_cons, List.not_mem_nil, or_false] at ht
+      rcases ht with rfl | rfl | rfl | rfl | rfl | rfl <;>
+        simp [descToDoc, argPlain]
+    · simp only [plainShop, List.mem_cons, List.not_mem_nil, or_false] at hd
+      subst hd; simp [descToDoc, argPlain]) (by decide)
 
 end PyGql.Props.C12
